@@ -719,7 +719,7 @@ def r046(an, rep):
             if not tv and len(body) == 1 and isinstance(body[0], ast.If):
                 node = body[0]
                 continue
-            if any(isinstance(n, ast.Raise) for st in body for n in ast.walk(st)):
+            if any(isinstance(st, ast.Raise) for st in body):  # an unconditional raise of the branch (a guarded `if x: raise` inside it is a check, not the outcome)
                 outcome = "raise"
             elif any(isinstance(n, ast.Call) and isinstance(n.func, ast.Name) and n.func.id == "Function" for st in body for n in ast.walk(st)):
                 outcome = "Function"
